@@ -180,7 +180,7 @@ type c16Spec struct {
 	CascGap string `json:"cascade_vs_new_source"` // behind equal ahead
 }
 
-var c16Events = []string{"source_dies", "source_lags", "source_returns_behind", "all_ha_replicas_dead", "switch_request", "reconfigure", "convert_at_outage"}
+var c16Events = []string{"source_dies", "source_lags", "source_returns_behind", "all_ha_replicas_dead", "switch_request", "reconfigure", "convert_at_outage", "collector_query_fails_on_cascade"}
 
 func c16Sim(u *Unit) {
 	r := rand.New(rand.NewSource(u.Seed))
@@ -337,6 +337,20 @@ func c16Sim(u *Unit) {
 			cmu.Unlock()
 			time.Sleep(60 * time.Second)
 			sc.Cover("converted-during-outage")
+		case "collector_query_fails_on_cascade":
+			// for half a minute one of the last queries of the state collection fails on the (healthy) cascade replica while
+			// it answers pings: the manager's picture of it is incomplete, its role is not
+			w.Lock()
+			until := time.Now().Add(30 * time.Second)
+			w.Fault = func(c *world.StmtCtx) world.FaultAction {
+				if c.Class == "semisync_status" && c.Host == "cas-db9" && c.Caller != "mysync_cas-db9" && time.Now().Before(until) {
+					sc.Cover("collector-query-failed-on-cascade")
+					return world.FaultAction{Kind: "fail", Errno: 3024}
+				}
+				return world.FaultAction{}
+			}
+			w.Unlock()
+			time.Sleep(60 * time.Second)
 		case "switch_request":
 			fileSwitch(sc, "", "cas-db9", "manual", "switchover", "operator")
 			time.Sleep(20 * time.Second)
